@@ -143,15 +143,18 @@ def run(ctx, prog):
                     ofull = flow.Origin(b)
                     rfull = flow.render(ofull.of_rvalue(rv, 0, frozenset()))
                     kind = None
-                    if re.match(r'^f64::min\(.*, arg:self→TokenBucket\.capacity\)$', r) or re.match(r'^f64::min\(.*, arg:self→TokenBucket\.capacity\)$', rfull):
+                    # the bucket written and the bucket whose capacity / count is read are the same object (the receiver differs when the code was inlined into a caller)
+                    recv = flow.render(ofull.of_place({'l': s['pl']['l'], 'p': [x for x in pr if not (isinstance(x, str) and x.endswith('TokenBucket.tokens'))]}))
+                    rq = re.escape(recv)
+                    if re.match(r'^f64::min\(.*, (arg:self|%s)→TokenBucket\.capacity\)$' % rq, r) or re.match(r'^f64::min\(.*, (arg:self|%s)→TokenBucket\.capacity\)$' % rq, rfull):
                         kind = 'min(_, capacity)'
-                    elif re.match(r'^\(arg:self→TokenBucket\.tokens Sub 1(\.0)?(f64)?\)$', r) or re.match(r'^\(arg:self→TokenBucket\.tokens Sub 1f64\)$', r):
+                    elif re.match(r'^\((arg:self|%s)→TokenBucket\.tokens Sub 1(\.0)?(f64)?\)$' % rq, r) or re.match(r'^\((arg:self|%s)→TokenBucket\.tokens Sub 1f64\)$' % rq, rfull):
                         # guarded by tokens >= 1.0
                         g = []
                         for j, blk2 in enumerate(b.blocks):
                             if blk2['t']['k'] == 'switch':
                                 for tg, p in list(flow.switch_edge_predicates(b, j, ov)) + list(flow.switch_edge_predicates(b, j, ofull)):
-                                    if re.match(r'^cmp\[1(\.0)?f64 <= arg:self→TokenBucket\.tokens\]$|^cmp\[arg:self→TokenBucket\.tokens >= 1(\.0)?f64\]$', p) and (j, tg) not in g:
+                                    if re.match(r'^cmp\[1(\.0)?f64 <= (arg:self|%s)→TokenBucket\.tokens\]$|^cmp\[(arg:self|%s)→TokenBucket\.tokens >= 1(\.0)?f64\]$' % (rq, rq), p) and (j, tg) not in g:
                                         g.append((j, tg))
                         if g and i not in b.reach([0], avoid_edges=g):
                             kind = '−1 under tokens ≥ 1'
